@@ -11,8 +11,8 @@ import sys
 
 
 class F:
-    def __init__(self, val, w, kind='u', cond=None, name=None):
-        self.val, self.w, self.kind, self.cond, self.name = val, w, kind, cond, name
+    def __init__(self, val, w, kind='u', cond=None, name=None, rd=None):
+        self.val, self.w, self.kind, self.cond, self.name, self.rd = val, w, kind, cond, name, rd
 
 
 def R(w, cond=None):
@@ -46,6 +46,12 @@ BOXES = [
                  R(8), F('b.layer', 2), F('b.alternate_group', 2), F('b.volume.0.numer', 2), R(2)] + MATRIX + [F('b.width.0.numer', 4), F('b.height.0.numer', 4)],
          wire='b.volume.0.denom == 0x100 && b.width.0.denom == 0x10000 && b.height.0.denom == 0x10000 && (b.version == 0 ==> b.creation_time <= 0xffff_ffff && b.modification_time <= 0xffff_ffff && b.duration <= 0xffff_ffff)',
          rd='b.volume.0.denom == 0x100 && b.width.0.denom == 0x10000 && b.height.0.denom == 0x10000 && (b.version == 0 ==> b.creation_time <= 0xffff_ffff && b.modification_time <= 0xffff_ffff && b.duration <= 0xffff_ffff)'),
+    dict(name='mdhd', ty='MdhdBox', code=0x6d646864, iso='8.4.2 MediaHeaderBox', versioned=True,
+         fields=[F('b.creation_time', 8, cond=V1), F('b.modification_time', 8, cond=V1), F('b.timescale', 4, cond=V1), F('b.duration', 8, cond=V1),
+                 F('(b.creation_time as u32)', 4, cond=V0), F('(b.modification_time as u32)', 4, cond=V0), F('b.timescale', 4, cond=V0), F('(b.duration as u32)', 4, cond=V0),
+                 F('lang_code_spec(b.language@)', 2, rd='b.language@ == lang_string_spec({dec})'), R(2)],
+         wire='(b.version == 0 ==> b.creation_time <= 0xffff_ffff && b.modification_time <= 0xffff_ffff && b.duration <= 0xffff_ffff)',
+         rd='(b.version == 0 ==> b.creation_time <= 0xffff_ffff && b.modification_time <= 0xffff_ffff && b.duration <= 0xffff_ffff)'),
     dict(name='mfhd', ty='MfhdBox', code=0x6d666864, iso='8.8.5 MovieFragmentHeaderBox', versioned=False,
          fields=[F('b.sequence_number', 4)], wire='true', rd='true'),
     dict(name='mehd', ty='MehdBox', code=0x6d656864, iso='8.8.2 MovieExtendsHeaderBox', versioned=True,
@@ -99,7 +105,10 @@ def spec(bx):
         if f.kind == 'i':
             dec = '(%s as i%d)' % (dec, f.w * 8)
         c = ('(%s) ==> ' % f.cond) if f.cond else ''
-        o.append('    &&& (%s%s == %s)' % (c, dec, f.val))
+        if getattr(f, 'rd', None):
+            o.append('    &&& (%s%s)' % (c, f.rd.replace('{dec}', dec)))
+        else:
+            o.append('    &&& (%s%s == %s)' % (c, dec, f.val))
     o.append('}')
     o.append('')
     o.append('/// reference encoder, field by field')
